@@ -2230,6 +2230,7 @@ func (lex *Lexer) Lex() *token.Token {
 		}
 		goto _again
 	tr172:
+		lex.cs = 113
 		// line internal/scanner/scanner.rl:54
 
 		// line internal/scanner/scanner.rl:127
@@ -2237,8 +2238,9 @@ func (lex *Lexer) Lex() *token.Token {
 		(lex.p)--
 		{
 			lex.addFreeFloatingToken(tkn, token.T_COMMENT, lex.ts, lex.te)
+			lex.cs = 116
 		}
-		goto st113
+		goto _again
 	st113:
 		// line NONE:1
 		lex.ts = 0
